@@ -1,6 +1,7 @@
 (* Extract.v — extraction of the executable model to OCaml. ExtrOcamlBasic only: bool, option, unit,
    prod, list, sumbool map to OCaml's; N, positive, nat, Z stay the Coq datatypes. No Extract Constant. *)
 Require Import Enr.Bytes Enr.Consts Enr.Rlp Enr.SortedMap Enr.Keccak Enr.Record Enr.Update Enr.Text Enr.NodeId Enr.CombinedKey.
+Require Import Enr.Spec EnrProofs.RefineLemmas EnrProofs.Thm_Refine EnrProofs.Thm_Cause.
 Require Import ExtrOcamlBasic.
 Extraction Language OCaml.
 Extraction "extracted/model.ml"
@@ -14,7 +15,7 @@ Extraction "extracted/model.ml"
   id ip4 ip6 tcp4 tcp6 udp4 udp6 udp4_socket udp6_socket tcp4_socket tcp6_socket
   is_udp_reachable is_tcp_reachable client_info public_key verify decode decode_vec
   rec_eqb hash_input compare_content
-  enc_tval apply_op step build check_reserved
+  enc_tval apply_op step build check_reserved presign_causes
   to_text from_str to_json from_json b64_encode b64_decode
   nodeid_parse hex_encode hex_decode nodeid_ser nodeid_deser nodeid_debug nodeid_display
   import_secp import_ed.
